@@ -4,7 +4,12 @@ Tie B: Model/Catalog.lean (hand-written) against reading.py on generated
 simulation trees + random call sequences (returned dicts and the bytes of
 iterations.txt / content.txt after every call), on fuzzed iterations.txt
 texts, on collect_overall_iterations inputs, on the range membership test, and
-the three regex matchers differentially against Python `re`.
+the three regex matchers differentially against Python `re`;
+Model/ParFile.lean against the .par parser of parameters() on generated
+parameter files.  The trees contain regrids inside a restart (the number of
+chunks of a level changes at some iteration, incl. one unnumbered chunk <->
+several), variable names that are substrings of other keys of their file, and
+(adversarial) variables of one file with different iteration sets.
 Search oracle: the generator's own ground truth for the tree it wrote
 (variables, ranges, strides, checkpoints), parse-back of the files, fresh
 scan of a copy of the final tree.
@@ -27,11 +32,22 @@ THEOREMS = ["AurelVerif.C18." + t for t in (
     "parse_format_key", "parse_format_file", "parse_format_checkpoint", "parse_h5file_ignores_directory",
     "print_parse_roundtrip", "print_parse_linebreak_hypothesis_is_necessary", "restarts_done_spec",
     "iterations_call_spec", "incremental_eq_fresh", "iterations_idempotent", "stable_criterion", "stable_prefix",
-    "scan_level_faithful", "scan_level_only_own_keys", "discover_exact", "content_cached_eq_scanned", "content_key_roundtrip",
+    "scan_level_faithful", "scan_level_faithful_perm", "scan_level_depends_on_set_only", "scan_levels_never_raise",
+    "scan_level_stride_is_first_difference", "scan_level_only_own_keys", "discover_exact", "content_cached_eq_scanned", "content_key_roundtrip",
     "overall_faithful", "merge_never_raises", "merge_step_faithful",
     "overall_no_singles_independent_of_membership", "overall_single_inside_range",
     "overall_equal_stride_gap_witness", "exS_stable", "exS0_stable")]
-FILES = ["AurelVerif/Props/C18.lean", "AurelVerif/Lemmas/Catalog.lean", "AurelVerif/Lemmas/CatalogParse.lean",
+MODULE_B = "AurelVerif.Props.C18b"
+THEOREMS_B = ["AurelVerif.C18." + t for t in (
+    "par_line_roundtrip", "par_file_roundtrip", "par_split_rejoin", "par_hash_inside_quotes_truncates",
+    "par_negative_float_is_string", "par_activethorns_piece_raises", "par_equals_before_colons_raises", "exItems_ok")]
+MODULE_C = "AurelVerif.Props.C18c"
+THEOREMS_C = ["AurelVerif.C18." + t for t in (
+    "selection_is_by_parsed_variable", "restart_data_describes_the_variable",
+    "restart_level_lines_describe_the_variable", "restart_data_no_parseable_key",
+    "variable_named_like_the_attribute_group_is_catalogued", "variables_of_one_file_are_not_mixed")]
+FILES = ["AurelVerif/Props/C18c.lean", "AurelVerif/Lemmas/C18Select.lean", "AurelVerif/Props/C18b.lean", "AurelVerif/Lemmas/C18Par.lean", "AurelVerif/Model/ParFile.lean",
+         "AurelVerif/Props/C18.lean", "AurelVerif/Lemmas/Catalog.lean", "AurelVerif/Lemmas/CatalogParse.lean",
          "AurelVerif/Lemmas/CatalogIncr.lean", "AurelVerif/Lemmas/CatalogScan.lean",
          "AurelVerif/Model/Catalog.lean", "Driver/C18.lean"]
 
@@ -116,7 +132,11 @@ ADVERSARIAL = ["my restart run", "a->b", "x rl = 3 y", "it's", 'q"uote', "a,b, c
                "checkpoint.chkpt", "x.file_0.y", "semi;colon", "back\\slash", "output-0003", ".h5", "a b",
                "sim[1]", "a*b", "q?x", "[ab]", "s === restart 7", "Reading iterations in: x", "x rl = 3 [7]"]
 SINGLE_VARS = ["alp", "betax", "betay", "betaz", "rho", "vel[0]", "vel[1]", "vel[2]", "gxx", "W", "myvar_2",
-               "NaNmask", "dtalp", "trK", "eps", "H", "Psi4r", "kxx"]
+               "NaNmask", "dtalp", "trK", "eps", "H", "Psi4r", "kxx", "dtgxx", "T", "rl", "it", "c"]
+# names that are substrings of the HDF5 group "Parameters and Global Attributes" every Carpet file contains: a
+# substring selection `varkey in k` keeps that non-dataset key (TypeError; fixed by 9f9bdbc: the keys of the
+# variable considered are selected by their parsed variable name)
+ATTR_SUBSTRING_VARS = ["A", "r", "s", "t", "e", "P", "a", "ram", "G", "u"]
 GROUPS = {  # thorn-group -> (THORN, variables)
     "admbase-lapse": ("ADMBASE", ["alp"]),
     "admbase-shift": ("ADMBASE", ["betax", "betay", "betaz"]),
@@ -125,7 +145,18 @@ GROUPS = {  # thorn-group -> (THORN, variables)
     "mythorn-stuff": ("MYTHORN", ["foo", "bar_1", "baz"]),
     "other_th-grp2": ("OTHER_TH", ["q"]),
     "x1-odd": ("X1", ["it's", "a,b", "w'x\"y"]),
+    # a variable whose name is a substring of another key of the same file (variable or thorn part): a
+    # substring selection takes the keys of both
+    "mythorn-lapses": ("MYTHORN", ["alp", "dtalp"]),
+    "hydrobase-ham": ("HYDROBASE", ["H", "rho", "HC"]),
+    "admbase-curv2": ("ADMBASE", ["kxx", "dtkxx", "kxxkxx"]),
+    "grid-coordinates": ("GRID", ["x", "y", "z", "r"]),
+    "mythorn-letters": ("MYTHORN", ["A", "r", "s", "t", "e"]),
+    "alpha-lapse": ("ALPHA", ["alp", "ALPHA", "lapse_alp"]),
+    "rho_th-rho": ("RHO_TH", ["RHO", "rho", "RHO_TH"]),
 }
+SUBSTRING_GROUPS = {"mythorn-lapses", "hydrobase-ham", "admbase-curv2", "grid-coordinates", "mythorn-letters",
+                    "alpha-lapse", "rho_th-rho"}
 
 
 def multiples(s, a, b):
@@ -169,54 +200,100 @@ def gen_levels(rng, nlev, window, strides, irregular):
     return levels
 
 
-def write_restart(rng, rdir, layout, levels, variables, nchunks, with_m, with_attr, checkpoints, xyz):
-    """writes the HDF5 files of one restart; returns ground truth."""
+ATTR_GROUP = "Parameters and Global Attributes"
+
+
+def nch_at(lv, base, it):
+    """number of chunks of a level at iteration `it` (0 = one unnumbered chunk): `lv["chunks"]` =
+    [[from_iteration, n], ...] describes regrids inside the restart; without it the simulation-wide `base`."""
+    n = base
+    for frm, m in lv.get("chunks") or []:
+        if it >= frm:
+            n = m
+    return n
+
+
+def write_restart(rng, rdir, layout, levels, variables, nchunks, with_m, with_attr, checkpoints, xyz, thin=0):
+    """writes the HDF5 files of one restart; returns ground truth.  A level may be regridded inside the
+    restart (`chunks`, see nch_at): from some iteration on its keys carry another number of chunks, including
+    one unnumbered chunk <-> several.  `thin` (per-variable out_every inside a group file): 1 = the first
+    variable in key order (the one iterations() considers) is written at every other iteration only, the others
+    at all of them; 2 = the first at all, the others at every other one; 3 = the i-th variable at every (i+2)-th
+    iteration.  The ground truth records, per file and variable, the iterations of every level (`files`)."""
     import h5py
     os.makedirs(rdir, exist_ok=True)
     singles, groups = variables
+    maxn = max([nchunks] + [m for lv in levels for _, m in (lv.get("chunks") or [])])
+    has0 = nchunks == 0 or any(m == 0 for lv in levels for _, m in (lv.get("chunks") or []))
+    files = {}
 
-    def keys_for(thorn, var, chunk):
+    def keys_for(rec, thorn, var, chunk, step=1):
+        """keys of chunk id `chunk` (None = the unnumbered one); every `step`-th iteration of each level"""
         ks = []
         for l, lv in enumerate(levels):
-            for it in lv["its"]:
+            for j, it in enumerate(lv["its"]):
+                if j % step:
+                    continue
+                n = nch_at(lv, nchunks, it)
+                if (chunk is None) != (n == 0) or (chunk is not None and chunk >= n):
+                    continue
                 k = "%s::%s it=%d tl=0%s rl=%d" % (thorn, var, it, " m=0" if with_m else "", l)
                 if chunk is not None:
                     k += " c=%d" % chunk
                 ks.append(k)
+                rec.setdefault(var, {}).setdefault(l, set()).add(it)
         return ks
 
-    def write(fname, keys):
+    def write(fname, keys, rec):
         with h5py.File(os.path.join(rdir, fname), "w") as f:
             for k in keys:
                 f.create_dataset(k, data=np.zeros(1))
             if with_attr:
-                f.create_group("Parameters and Global Attributes")
+                f.create_group(ATTR_GROUP)
+        files[fname] = {"first_key": min(keys) if keys else None,
+                        "vars": {v: {str(l): sorted(its) for l, its in d.items()} for v, d in rec.items()}}
+
+    def step_of(vs, v):
+        i = sorted(vs).index(v)
+        if len(vs) < 2 or not thin:
+            return 1
+        return {1: 2 if i == 0 else 1, 2: 1 if i == 0 else 2, 3: i + 2}[thin]
 
     pre, suf = (".xyz", "") if xyz == 1 else (("", ".xyz") if xyz == 2 else ("", ""))
+    mixed = False
     if layout == "onefile":
+        ids = ([None] if has0 else []) + list(range(maxn))
         for v in singles:
-            ks = []
-            for c in ([None] if nchunks == 0 else range(nchunks)):
-                ks += keys_for("TH", v, c)
-            write("%s%s.h5" % (v, pre), ks)
+            ks, rec = [], {}
+            for c in ids:
+                ks += keys_for(rec, "TH", v, c)
+            write("%s%s.h5" % (v, pre), ks, rec)
         for g in groups:
             th, vs = GROUPS[g]
-            ks = []
+            ks, rec = [], {}
             for v in vs:
-                for c in ([None] if nchunks == 0 else range(nchunks)):
-                    ks += keys_for(th, v, c)
-            write("%s%s.h5" % (g, pre), ks)
+                mixed = mixed or step_of(vs, v) > 1
+                for c in ids:
+                    ks += keys_for(rec, th, v, c, step_of(vs, v))
+            write("%s%s.h5" % (g, pre), ks, rec)
     else:
-        n = max(1, nchunks)
+        n = max(1, maxn)
         for c in range(n):
+            # the unnumbered chunk of a level (regrid to one component) lives in file_0
+            ids = [c] + ([None] if (c == 0 and has0) else [])
             for v in singles:
-                write("%s%s.file_%d%s.h5" % (v, pre, c, suf), keys_for("TH", v, c))
+                ks, rec = [], {}
+                for cc in ids:
+                    ks += keys_for(rec, "TH", v, cc)
+                write("%s%s.file_%d%s.h5" % (v, pre, c, suf), ks, rec)
             for g in groups:
                 th, vs = GROUPS[g]
-                ks = []
+                ks, rec = [], {}
                 for v in vs:
-                    ks += keys_for(th, v, c)
-                write("%s%s.file_%d%s.h5" % (g, pre, c, suf), ks)
+                    mixed = mixed or step_of(vs, v) > 1
+                    for cc in ids:
+                        ks += keys_for(rec, th, v, cc, step_of(vs, v))
+                write("%s%s.file_%d%s.h5" % (g, pre, c, suf), ks, rec)
     for it, nfile in checkpoints:
         if nfile == 0:
             open(os.path.join(rdir, "checkpoint.chkpt.it_%d.h5" % it), "w").close()
@@ -227,7 +304,38 @@ def write_restart(rng, rdir, layout, levels, variables, nchunks, with_m, with_at
     for g in groups:
         allvars += GROUPS[g][1]
     return {"vars": sorted(set(allvars)), "levels": [lv["its"] for lv in levels],
-            "checkpoints": sorted({c[0] for c in checkpoints})}
+            "checkpoints": sorted({c[0] for c in checkpoints}), "mixed": mixed, "files": files,
+            "regrid": any(lv.get("chunks") for lv in levels)}
+
+
+def add_regrid(rng, levels, layout, nchunks, reduce_only=False):
+    """a regrid inside the restart: from some iteration on a level is cut into another number of chunks
+    (Carpet regrids change the component count), including 1 unnumbered chunk <-> several.
+    `reduce_only` (one file per chunk AND per-variable iteration sets): the count never grows, so that no
+    chunk file appears late and lacks a thinned variable altogether (get_content reads the variables of a
+    group from ONE of its chunk files; a chunk file without some variable of its group is not generated)."""
+    done = False
+    for lv in levels:
+        its = lv["its"]
+        if len(its) < 2 or rng.random() < 0.3:
+            continue
+        segs = []
+        cur = nchunks
+        for frm in sorted(rng.sample(its[1:], min(len(its) - 1, rng.choice([1, 1, 2])))):
+            choices = [n for n in (0, 1, 2, 3, 4) if n != cur]
+            if cur == 0:
+                choices = [2, 3, 2, 4]
+            elif rng.random() < 0.35:
+                choices = [0]
+            if reduce_only:
+                choices = [n for n in choices if n < cur]
+                if not choices:
+                    break
+            cur = rng.choice(choices)
+            segs.append([frm, cur])
+        lv["chunks"] = segs
+        done = True
+    return done
 
 
 def gen_sim(ctx, adversarial):
@@ -253,6 +361,14 @@ def gen_sim(ctx, adversarial):
         variables = (pool_s[:rng.choice([0, 0, 1])], pool_g[:rng.randint(1, 3)])
     else:
         variables = (pool_s[:rng.randint(1, 4)], [])
+    if rng.random() < 0.12:
+        # a variable whose name occurs inside "Parameters and Global Attributes"
+        variables = ([rng.choice(ATTR_SUBSTRING_VARS)] + variables[0][:rng.choice([0, 1])], variables[1])
+    if grouped and rng.random() < 0.35:
+        # make sure a group with names that are substrings of other keys is present
+        variables = (variables[0], [rng.choice(sorted(SUBSTRING_GROUPS))] + variables[1][:rng.choice([0, 1, 2])])
+    # per-variable iteration sets inside one group file (see write_restart)
+    thin = rng.choice([1, 1, 2, 3]) if grouped and rng.random() < 0.4 else 0
     restarts = []
     s0 = rng.choice([1, 2, 3, 4, 8, 16, 128]) * 2 ** (min(nlev, 4) - 1)
     strides = [s0]
@@ -275,6 +391,8 @@ def gen_sim(ctx, adversarial):
         if rng.random() < 0.5:
             nf = rng.choice([0, 0, 2, 11])
             chk = [(rng.randint(window[0], mx + 3), nf) for _ in range(rng.randint(1, 3))]
+        if rng.random() < 0.45:
+            add_regrid(rng, levels, layout, nchunks, reduce_only=bool(thin) and layout == "proc")
         restarts.append({"levels": levels, "checkpoints": chk, "empty": empties[r],
                          "variables": variables if rng.random() < 0.9 else (alt, [])})
     numbers = list(range(nres))
@@ -285,7 +403,7 @@ def gen_sim(ctx, adversarial):
     if rng.random() < 0.5:
         decoys = rng.sample(DECOYS, rng.randint(1, 4))
     return {"name": name, "layout": layout, "nchunks": nchunks, "with_m": with_m, "xyz": xyz,
-            "decoys": decoys, "active_link": rng.random() < 0.4,
+            "decoys": decoys, "active_link": rng.random() < 0.4, "thin": thin,
             "with_attr": rng.random() < 0.8, "restarts": restarts, "numbers": numbers,
             "adversarial": adversarial, "irregular": irregular}
 
@@ -338,7 +456,7 @@ class Tree:
         else:
             self.truth[nbr] = write_restart(self.ctx.rng, d, plan["layout"], r["levels"], r["variables"],
                                             plan["nchunks"], plan["with_m"], plan["with_attr"],
-                                            r["checkpoints"], plan["xyz"])
+                                            r["checkpoints"], plan["xyz"], int(plan.get("thin", 0) or 0))
         if plan.get("active_link"):
             # simfactory keeps a symbolic link output-NNNN-active to the running restart
             if self.active and os.path.islink(self.active):
@@ -475,6 +593,23 @@ def classify_name(name):
     return "benign"
 
 
+def considered_truth(tree, nbr, t):
+    """(file, variable considered, {level: iterations}) from the generator's own record of the file named on the
+    'Reading iterations in:' line of restart `nbr`: the variable of its first key in alphabetical order"""
+    prefix = "Reading iterations in: " + tree.rdir(nbr) + "/"
+    try:
+        txt = open(tree.it_path()).read()
+    except OSError:
+        return None
+    names = [li[len(prefix):] for li in txt.split("\n") if li.startswith(prefix)]
+    names = [n for n in names if n in t.get("files", {})]
+    if not names or not t["files"][names[0]]["first_key"]:
+        return None
+    rec = t["files"][names[0]]
+    var = RX_KEY.match(rec["first_key"]).group(2)
+    return names[0], var, {int(l): its for l, its in rec["vars"][var].items()}
+
+
 def oracle_check(ctx, reading, tree, last_result, ops):
     """compare what the real code returned / wrote with the ground truth."""
     import aurel  # noqa
@@ -524,7 +659,39 @@ def oracle_check(ctx, reading, tree, last_result, ops):
         if sorted(int(x) for x in e.get("checkpoints", [])) != t["checkpoints"]:
             found += viol("restart %d: checkpoints %r, on disk %r" % (nbr, e.get("checkpoints"), t["checkpoints"]),
                           "checkpoints")
-        if t["levels"]:
+        if t["levels"] and t.get("mixed"):
+            # the variables of one file have different iteration sets: the lines must describe exactly "the
+            # variable considered" = the variable of the first key (h5py lists keys alphabetically) of the file
+            # named on this restart's 'Reading iterations in:' line
+            ct = considered_truth(tree, nbr, t)
+            if ct is None:
+                found += viol("restart %d: no 'Reading iterations in:' line naming a file of the restart" % nbr,
+                              "considered-file")
+                continue
+            fname, var, lv = ct
+            ctx.count("judged: restarts whose variables of one file have different iteration sets")
+            allits = sorted(set().union(*[set(x) for x in lv.values()]))
+            ia = [int(x) for x in e.get("its available", [])]
+            if ia != [allits[0], allits[-1]]:
+                found += viol("restart %d: its available %r, variable considered %r of %s is on disk at [%d, %d]"
+                              % (nbr, ia, var, fname, allits[0], allits[-1]), "its-range-considered")
+            got_levels = sorted(int(k.split("rl = ")[1]) for k in e if k.startswith("rl = "))
+            if got_levels != sorted(lv):
+                found += viol("restart %d: levels %r reported, variable considered %r of %s has levels %r"
+                              % (nbr, got_levels, var, fname, sorted(lv)), "levels-considered")
+            for l, its in sorted(lv.items()):
+                got = [int(x) for x in e.get("rl = %d" % l, [])]
+                is_ap = len(its) >= 2 and len({b - a for a, b in zip(its, its[1:])}) == 1
+                if len(its) == 1:
+                    want = its
+                elif is_ap:
+                    want = [its[0], its[-1], its[1] - its[0]]
+                else:
+                    continue
+                if got != want:
+                    found += viol("restart %d rl %d: %r, variable considered %r of %s is on disk at %r"
+                                  % (nbr, l, got, var, fname, want), "level-considered")
+        elif t["levels"]:
             allits = sorted(set().union(*[set(l) for l in t["levels"]]))
             ia = [int(x) for x in e.get("its available", [])]
             if ia != [allits[0], allits[-1]]:
@@ -561,7 +728,7 @@ def oracle_check(ctx, reading, tree, last_result, ops):
                 if len(its) >= 2 and len({b - a for a, b in zip(its, its[1:])}) != 1:
                     ok = False
                 truth |= set(its)
-        if not ok or not truth or tree.plan.get("irregular"):
+        if not ok or not truth or tree.plan.get("irregular") or any(t.get("mixed") for t in tree.truth.values()):
             continue
         segs = res.get("overall", {}).get("rl = %d" % l, [])
         got = set().union(*[expand(s) for s in segs]) if len(segs) else set()
@@ -769,6 +936,21 @@ def correspondence(ctx, reading):
             exp += e
             meta += [(i, plan["name"])] * len(l)
             dist["adversarial" if adversarial else "benign"] += 1
+            for tag, on in (("restarts with a regrid inside (chunk count of a level changes)",
+                             sum(1 for r in plan["restarts"] if any(lv.get("chunks") for lv in r["levels"]))),
+                            ("restarts with unnumbered <-> numbered chunks",
+                             sum(1 for r in plan["restarts"] if any(
+                                 lv.get("chunks") and (plan["nchunks"] == 0 or any(m == 0 for _, m in lv["chunks"]))
+                                 for lv in r["levels"]))),
+                            ("simulations with per-variable iteration sets in one file", 1 if plan.get("thin") else 0),
+                            ("simulations with a variable name that is a substring of another key of its file",
+                             1 if any(set(r["variables"][1]) & SUBSTRING_GROUPS for r in plan["restarts"]) else 0),
+                            ("simulations with a variable name inside %r" % ATTR_GROUP,
+                             1 if plan["with_attr"] and any(
+                                 v in ATTR_GROUP for r in plan["restarts"]
+                                 for v in list(r["variables"][0]) + [x for g in r["variables"][1] for x in GROUPS[g][1]])
+                             else 0)):
+                dist[tag] = dist.get(tag, 0) + on
             key = "%s/%s" % (plan["layout"], "grouped" if plan["restarts"][0]["variables"][1] else "single")
             dist["layouts"][key] = dist["layouts"].get(key, 0) + 1
             dist["restarts"][len(plan["restarts"])] = dist["restarts"].get(len(plan["restarts"]), 0) + 1
@@ -952,6 +1134,42 @@ def excluded_points(ctx, reading):
             res["overall %r + %r" % (its0, its1)] = e2 if e2 else repr(
                 [[int(x) for x in sg] for sg in r2["overall"].get("rl = 0", [])])
             found += oracle_check(ctx, reading, tree, ("err", e2) if e2 else ("ok", r2), log)
+        # regrids inside a restart (fixed by efae800): 2 -> 3 chunks at iteration 6; one unnumbered chunk ->
+        # several; several -> one unnumbered; with a second level that is not regridded
+        for j, (base, segs, layout) in enumerate([(2, [[6, 3]], "onefile"), (0, [[4, 3]], "onefile"),
+                                                  (3, [[2, 0], [6, 2]], "onefile"), (2, [[6, 3]], "proc"),
+                                                  (1, [[4, 0]], "proc")]):
+            plan = {"name": "regrid_%d" % j, "layout": layout, "nchunks": base, "with_m": False, "xyz": 0,
+                    "with_attr": True, "numbers": [0], "adversarial": False,
+                    "restarts": [{"levels": [{"stride": 2, "its": [0, 2, 4, 6, 8], "chunks": segs},
+                                             {"stride": 1, "its": list(range(0, 9))}],
+                                  "checkpoints": [], "empty": False, "variables": (["alp", "dtalp"], [])}]}
+            sub = os.path.join(root, "g%d" % j)
+            os.makedirs(sub)
+            tree = Tree(ctx, plan, sub)
+            l, e, log = run_sequence(ctx, reading, tree, 0, ops=[("add",), ("iter", False)])
+            e2, r2 = call(reading.iterations, tree.param, skip_last=False, verbose=False)
+            res["regrid %s base %d chunks, then %r" % (layout, base, segs)] = e2 if e2 else repr(
+                [int(x) for x in r2[0].get("rl = 0", [])])
+            found += oracle_check(ctx, reading, tree, ("err", e2) if e2 else ("ok", r2), log)
+        # selection of the variable considered (fixed by 9f9bdbc): a variable whose name occurs in the attributes
+        # group name; one group file whose variables have different iteration sets and names that are substrings
+        # of each other / of the thorn name
+        for j, (variables, thin) in enumerate([((["A"], []), 0), ((["r", "alp"], []), 0), (([], ["mythorn-lapses"]), 1),
+                                               (([], ["hydrobase-ham"]), 1), (([], ["grid-coordinates"]), 3),
+                                               (([], ["mythorn-letters"]), 1), (([], ["alpha-lapse"]), 2)]):
+            plan = {"name": "select_%d" % j, "layout": "onefile", "nchunks": 0, "with_m": False, "xyz": 0,
+                    "with_attr": True, "numbers": [0], "adversarial": False, "thin": thin,
+                    "restarts": [{"levels": [{"stride": 2, "its": [0, 2, 4, 6, 8]}, {"stride": 1, "its": list(range(9))}],
+                                  "checkpoints": [], "empty": False, "variables": variables}]}
+            sub = os.path.join(root, "v%d" % j)
+            os.makedirs(sub)
+            tree = Tree(ctx, plan, sub)
+            l, e, log = run_sequence(ctx, reading, tree, 0, ops=[("add",), ("iter", False)])
+            e2, r2 = call(reading.iterations, tree.param, skip_last=False, verbose=False)
+            res["selection %r thin=%d" % (variables, thin)] = e2 if e2 else repr(
+                [int(x) for x in r2[0].get("rl = 0", [])])
+            found += oracle_check(ctx, reading, tree, ("err", e2) if e2 else ("ok", r2), log)
         # documented effect of skip_last: the last restart is not catalogued
         plan = {"name": "simB", "layout": "onefile", "nchunks": 0, "with_m": False, "xyz": 0, "with_attr": True,
                 "numbers": [0, 1], "adversarial": False,
@@ -976,9 +1194,200 @@ def excluded_points(ctx, reading):
     return found
 
 
+PAR_THORNS = ["CoordBase", "Carpet", "IOHDF5", "ADMBase", "A", "ML_BSSN", "Cactus", "ActiveThorns", "a b", "x-y",
+              "T:h", "T:", "", "Time", "thorn#1"]
+PAR_VARS = ["out_every", "verbose", "timelevels", "evolution_method", "one_file_per_group", "dtfac", "cctk_itlast",
+            "out_dir", "a::b", "my var", "simname", "xmax_extra", "v", "ActiveThorns", "datapath", "ghost_size", ":v",
+            "w::", "initial_data"]
+PAR_VALUES = ["7", "-12", "+3", "0.5", "1e-5", "-1.5e-3", "+2.5e+2", "1.", ".5", "1e5", "5e", "e5", "1-2", "-+5", "--5",
+              "1.2.3", "1e5e", "12e", "e", '"hello"', '"a=b::c"', '"x # y"', "yes", "no", '"$parfile"', '"a"b"c"', '""',
+              '"', "1_0", "0x10", "1 2", "", '"unterminated', "3.0e0", "007", "-0", "1e+", "+", "-", ".", "-.5", "5.e2",
+              ".e2", "1ee2", "1e-3", "-1e5", "1e+5", "+1e-5", "2.50", "100000000000000000000000", "1e400", "-.e1",
+              '"ActiveThorns"', '"a b  c"', "Carpet::x", "a=b", "=", "e-", "+e1", "1+", "1.e", "1e.5", "1.-"]
+PAR_FORMS = ["%s::%s = %s", "%s::%s=%s", "  %s :: %s   =   %s  ", "%s::%s = %s # comment with :: and = in it",
+             "%s::%s\t=\t%s", "%s::%s = %s#c", "%s ::%s= %s"]
+PAR_OTHER = ["# full comment", "", "   ", 'ActiveThorns = "A B  C"', "ActiveThorns = A", 'ActiveThorns="X"  # c',
+             "ActiveThorns::x = 1", "x = 1 :: y", "junk line", "a::b", "Active Thorns", 'ActiveThorns = "CoordBase Carpet',
+             'ActiveThorns = "', "!DESC \"a::b = c\"", "::", "=", "::=", "=::", " :: = ", "#", "a::b#=1",
+             'ActiveThorns = "a::b"', "ActiveThorns"]
+PAR_DERIVED = {"Lx", "Ly", "Lz", "Nx", "Ny", "Nz", "xmin", "ymin", "zmin", "max_refinement_levels", "list_of_thorns"}
+PAR_NAMES = ["p", "simA", "run-07", "a b", "sim[1]", "it's", "q?x", "a*b", "x::y=1", "my#sim"]
+
+
+def _par_value_raises(v):
+    v = v.strip()
+    dv = v.replace('.', '', 1).replace('-', '', 1).replace('+', '', 1).replace('e', '', 1)
+    if not dv.isdigit():
+        return False
+    try:
+        float(v) if ('.' in v or 'e' in v) else int(v)
+        return False
+    except ValueError:
+        return True
+
+
+PAR_VALUES_SAFE = [v for v in PAR_VALUES if not _par_value_raises(v)]
+PAR_THORNS_SAFE = [t for t in PAR_THORNS if t != "ActiveThorns"]
+PAR_OTHER_SAFE = [o for o in PAR_OTHER if o not in ("ActiveThorns = A", "ActiveThorns::x = 1", "x = 1 :: y", "=::",
+                                                     "ActiveThorns")]
+
+
+def gen_par(rng):
+    """most files parse (so that every line is reached); one in four may contain a line that raises"""
+    ls = []
+    safe = rng.random() < 0.75
+    values, thorns, other = ((PAR_VALUES_SAFE, PAR_THORNS_SAFE, PAR_OTHER_SAFE) if safe
+                             else (PAR_VALUES, PAR_THORNS, PAR_OTHER))
+    for _ in range(rng.randint(0, 8)):
+        if rng.random() < 0.7:
+            ls.append(rng.choice(PAR_FORMS) % (rng.choice(thorns), rng.choice(PAR_VARS), rng.choice(values)))
+        else:
+            ls.append(rng.choice(other))
+    nl = rng.choice(["\n", "\n", "\n", "\r\n", "\r"])
+    grid = ["CoordBase::%smin = -1.0" % c for c in "xyz"] + ["CoordBase::%smax = 1.0" % c for c in "xyz"] + \
+           ["CoordBase::d%s = 0.5" % c for c in "xyz"]
+    return nl.join(ls + grid) + (nl if rng.random() < 0.8 else "")
+
+
+PAR_CLASH = ["verbose", "timelevels", "evolution_method", "out_every", "one_file_per_group"]
+CLEAN_THORNS = ["CoordBase", "Carpet", "IOHDF5", "ADMBase", "A", "a b", "x-y", "Time", "T:h", "x=y"]
+CLEAN_VARS = ["out_every", "verbose", "dtfac", "out_dir", "a::b", "my var", "v", "ghost_size", "initial_data",
+              "timelevels", "w::"]
+CLEAN_VALUES = [("7", 7), ("-12", -12), ("+3", 3), ("007", 7), ("-0", 0), ("100000000000000000000000", 10 ** 23),
+                ("0.5", 0.5), ("1e-5", 1e-5), ("2.5e+2", 250.0), ("-1.0", -1.0), ("1.", 1.0), ("-.5", -0.5),
+                ("3.0e0", 3.0), ("1e5", 1e5), ('"hello"', "hello"), ('"a=b::c"', "a=b::c"), ('""', ""),
+                ('"$parfile"', "$parfile"), ('"a b  c"', "a b  c"), ('" lead"', " lead"), ('"1.5"', "1.5"),
+                ("yes", "yes"), ("no", "no"), ("Carpet::x", "Carpet::x"), ("a=b", "a=b"), ("1_0", "1_0")]
+
+
+def gen_par_clean(rng):
+    """a well-formed parameter file (inside the hypotheses of par_file_roundtrip, plus plain floats) and the
+    dictionary entries it must produce = independent ground truth"""
+    ls, want = [], {}
+    for _ in range(rng.randint(1, 8)):
+        c = rng.random()
+        if c < 0.75:
+            th, var = rng.choice(CLEAN_THORNS), rng.choice(CLEAN_VARS)
+            txt, val = rng.choice(CLEAN_VALUES)
+            form = rng.choice(["%s::%s = %s", "%s::%s=%s", "  %s :: %s   =   %s  ", "%s::%s\t=\t%s",
+                               "%s::%s = %s # comment with :: and = in it", "%s::%s = %s#c"])
+            ls.append(form % (th, var, txt))
+            want[th + "::" + var if var in PAR_CLASH else var] = val
+        else:
+            ls.append(rng.choice(["# full comment", "", "   ", "  # x::y = 3", "#"]))
+    grid = ["CoordBase::%smin = -1.0" % c for c in "xyz"] + ["CoordBase::%smax = 1.0" % c for c in "xyz"] + \
+           ["CoordBase::d%s = 0.5" % c for c in "xyz"]
+    return "\n".join(ls + grid) + "\n", want
+
+
+def par_oracle(ctx, name, txt, want, e, r):
+    """ground truth of the generator for a well-formed file"""
+    replay = {"kind": "par", "name": name, "text": txt, "want": {k: [type(v).__name__, repr(v)] for k, v in want.items()}}
+    if e:
+        return 1 if ctx.violation("parameters() raised %s on a well-formed parameter file" % e, replay,
+                                  {"site": "par-raises", "exc": e}) else 0
+    for k, v in want.items():
+        got = r.get(k, None)
+        if type(got) is not type(v) or got != v:
+            return 1 if ctx.violation("parameters(): %r comes back as %r, the file says %r" % (k, got, v), replay,
+                                      {"site": "par-value", "kind": type(v).__name__, "got": type(got).__name__}) else 0
+    return 0
+
+
+def canon_par_real(r):
+    es = []
+    for k, v in r.items():
+        if k in PAR_DERIVED:
+            continue
+        if isinstance(v, bool) or not isinstance(v, (int, float, str)):
+            es.append(enc(k) + "=?" + repr(v))
+        elif isinstance(v, int):
+            es.append(enc(k) + "=I%d" % v)
+        elif isinstance(v, float):
+            es.append(enc(k) + "=F" + v.hex())
+        else:
+            es.append(enc(k) + "=S" + enc(v))
+    return "ok " + (";".join(es) or "~") + " T " + ",".join(sorted(enc(t) for t in set(r["list_of_thorns"])))
+
+
+def canon_par_model(o):
+    """model line -> same canonical form: derived keys dropped, the exact decimal mant*10^exp rounded to a double
+    by Python's float() (what `float(value)` does with the text), thorns as a sorted set"""
+    if not o.startswith("ok "):
+        return o
+    body, th = o[3:].split(" T ")
+    derived = {enc(k) for k in PAR_DERIVED}
+    es = []
+    for e in ([] if body == "~" else body.split(";")):
+        k, v = e.split("=", 1)
+        if k in derived:
+            continue
+        if v.startswith("F"):
+            m, x = v[1:].split(",")
+            try:
+                v = "F" + float("%se%s" % (m, x)).hex()
+            except (ValueError, OverflowError):
+                v = "F?" + v
+        es.append(k + "=" + v)
+    return "ok " + (";".join(es) or "~") + " T " + ",".join(sorted(set([] if th == "~" else th.split(","))))
+
+
+def par_correspondence(ctx, reading):
+    """the .par parser of parameters() against Model/ParFile.lean on generated parameter files (every value
+    shape of the number test, quoted strings with '=', '::', '#', comments, ActiveThorns lines, line endings,
+    simulation names with glob metacharacters)"""
+    n = ctx.budget(250, 2500)
+    lines, exp, shapes = [], [], {}
+    found = nclean = 0
+    root = tempfile.mkdtemp(prefix="c18p-")
+    old = os.environ.get("SIMLOC")
+    try:
+        os.environ["SIMLOC"] = root + "/"
+        for i in range(n):
+            name = ctx.rng.choice(PAR_NAMES)
+            want = None
+            if i % 3 == 0:
+                txt, want = gen_par_clean(ctx.rng)
+            else:
+                txt = gen_par(ctx.rng)
+            d = os.path.join(root, name, "output-0000")
+            os.makedirs(d, exist_ok=True)
+            with open(os.path.join(d, name + ".par"), "w", newline="") as f:
+                f.write(txt)
+            e, r = call(reading.parameters, name)
+            shutil.rmtree(os.path.join(root, name), ignore_errors=True)
+            if want is not None:
+                found += par_oracle(ctx, name, txt, want, e, r)
+                nclean += 1
+            lines.append("par %s %s %s" % (enc(root + "/"), enc(name), enc(txt)))
+            exp.append(e if e else canon_par_real(r))
+            k = e if e else "ok"
+            shapes[k] = shapes.get(k, 0) + 1
+    finally:
+        if old is None:
+            os.environ.pop("SIMLOC", None)
+        else:
+            os.environ["SIMLOC"] = old
+        shutil.rmtree(root, ignore_errors=True)
+    try:
+        outs = [canon_par_model(o) for o in ctx.run_driver("Driver/C18.lean", lines)]
+    except Exception as ex:  # noqa
+        ctx.obligation("par:driver", False, repr(ex), kind="correspondence")
+        return found
+    bad = ["`%s`: real `%s` model `%s`" % (l[:60], e[:300], o[:300]) for l, e, o in zip(lines, exp, outs) if e != o]
+    ctx.cov["par_files"] = {"n": len(lines), "outcomes": shapes, "well-formed files judged by ground truth": nclean}
+    ctx.obligation("correspondence: Model/ParFile vs the .par parser of parameters() (%d generated files)" % len(lines),
+                   not bad and len(outs) == len(lines), " ;; ".join(bad[:4]), kind="correspondence")
+    if bad:
+        os.makedirs("/tmp/c18-work", exist_ok=True)
+        with open("/tmp/c18-work/last_par_mismatch.txt", "w") as f:
+            f.write("\n".join(bad[:50]))
+    return found
+
+
 def parameters_observation(ctx, reading):
-    """parameters() is not modelled; record (not judge) how literal values of a
-    generated .par file come back (int / float / quoted string)."""
+    """informational: values of a .par file that do NOT come back as the number / string that was written (the
+    model reproduces each of them: see par_correspondence); recorded, not judged."""
     vals = {"A::i1": ("7", 7), "A::i2": ("-12", -12), "A::f1": ("0.5", 0.5), "A::f2": ("1e-5", 1e-5),
             "A::f3": ("-1.5e-3", -1.5e-3), "A::f4": ("+2.5e+2", 250.0), "A::s1": ('"hello"', "hello"),
             "A::s2": ('"a=b::c"', "a=b::c"), "A::s3": ('"x # y"', "x # y"), "B::i1": ("3", 3)}
@@ -1006,7 +1415,7 @@ def parameters_observation(ctx, reading):
         else:
             os.environ["SIMLOC"] = old
         shutil.rmtree(root, ignore_errors=True)
-    ctx.cov["parameters_values_not_round_tripped (not modelled, informational)"] = obs
+    ctx.cov["parameters_values_not_round_tripped (informational; outside the hypotheses of par_line_roundtrip)"] = obs
 
 
 def run(ctx):
@@ -1020,18 +1429,49 @@ def run(ctx):
     ctx.assumptions += ["restart directories are not modified after they have been catalogued (only new restarts appear)",
                         "all HDF5 files readable; ASCII digits only in names"]
     ctx.prove(MODULE, THEOREMS)
+    ctx.prove(MODULE_B, THEOREMS_B)
+    ctx.prove(MODULE_C, THEOREMS_C)
     ctx.forbidden_scan(FILES)
     if ctx.tier == "thorough":
-        ctx.leanchecker([MODULE])
+        ctx.leanchecker([MODULE, MODULE_B, MODULE_C])
     regex_differential(ctx, reading)
     found = correspondence(ctx, reading)
     found += excluded_points(ctx, reading)
+    found += par_correspondence(ctx, reading)
     parameters_observation(ctx, reading)
     ctx.cov["violations_found"] = found
 
 
 def replay(ctx, obj):
     from aurel import reading
+    if obj.get("kind") == "par":
+        root = tempfile.mkdtemp(prefix="c18r-")
+        old = os.environ.get("SIMLOC")
+        try:
+            d = os.path.join(root, obj["name"], "output-0000")
+            os.makedirs(d)
+            with open(os.path.join(d, obj["name"] + ".par"), "w", newline="") as f:
+                f.write(obj["text"])
+            os.environ["SIMLOC"] = root + "/"
+            e, r = call(reading.parameters, obj["name"])
+            bad = 0
+            if e:
+                print("replay: parameters() -> %s" % e)
+                bad = 1
+            else:
+                for k, (tn, rp) in obj["want"].items():
+                    got = r.get(k)
+                    if type(got).__name__ != tn or repr(got) != rp:
+                        print("replay: %r comes back as %r, the file says %s" % (k, got, rp))
+                        bad = 1
+            print("replay: %d violation(s) now" % bad)
+            return bad
+        finally:
+            if old is None:
+                os.environ.pop("SIMLOC", None)
+            else:
+                os.environ["SIMLOC"] = old
+            shutil.rmtree(root, ignore_errors=True)
     if obj.get("kind") != "history" or "plan" not in obj:
         print("replay: nothing to re-execute (kind=%s)" % obj.get("kind"))
         return 0
@@ -1053,7 +1493,7 @@ def replay(ctx, obj):
 
 MANIFEST = {
     "category": "proof",
-    "technique": "Lean 4 theorems over a hand-written executable model of the catalogue code (string-level printer / split-based parser, regex matchers, incremental iterations() on a modelled file system, get_content cache, overall merge), tied to reading.py by correspondence on generated simulation trees and call sequences and by regex differential testing",
-    "text": "Proof for all inputs: the three name matchers invert the naming scheme for every valid key / file name / checkpoint name; read_iterations parses back every catalogue the printer can write, for every path without a line break and plain variable names; any interleaving of iterations() calls with restarts being added leaves the same file and returns the same structure as one fresh scan; cached get_content equals the scan when no variable name contains a comma; the per-level summary is the arithmetic progression on disk. The overall merge never raises and describes exactly the union of the per-restart progressions, provided every merge of two equal-stride ranges continues the first one (the code does not check this; kernel-checked gap witness).",
-    "note": "Trusted: Lean kernel + propext/Classical.choice/Quot.sound; the hand-written model (validated on every run against the real code: returned dicts and bytes of iterations.txt/content.txt after every call on generated trees with benign and adversarial names, 1-5 restarts, 1-3 levels, four file layouts, checkpoints); Python str/int/repr/json/glob/h5py semantics. parameters() is not modelled.",
+    "technique": "Lean 4 theorems over hand-written executable models of the catalogue code (string-level printer / split-based parser, regex matchers, incremental iterations() on a modelled file system, get_content cache, overall merge) and of the .par parser of parameters(), tied to reading.py by correspondence on generated simulation trees (regrids inside restarts, chunked and unnumbered components, variable names that are substrings of other keys / of the thorn / of the attributes group name, per-variable iteration sets inside one file) and call sequences, on generated parameter files, and by regex differential testing; oracle = the generator's ground truth per file and variable",
+    "text": "Proof for all inputs: the three name matchers invert the naming scheme for every valid key / file name / checkpoint name; read_iterations parses back every catalogue the printer can write, for every path without a line break and plain variable names; any interleaving of iterations() calls with restarts being added leaves the same file and returns the same structure as one fresh scan; cached get_content equals the scan when no variable name contains a comma. The data part of a restart is a closed-form function of the keys of the variable considered (the variable of the first key of the representative file that rx_key matches): the keys are selected by their parsed variable name, exactly and without exception, whatever substrings the names share; the line of a level is the arithmetic progression on disk for ANY list of keys of that variable at the level (several chunks, one unnumbered chunk, repetitions, regrids that change the chunk count) whose SET of iterations is the progression, it depends on that set only, and the per-level block never raises. The overall merge never raises and describes exactly the union of the per-restart progressions, provided every merge of two equal-stride ranges continues the first one (the code does not check this; kernel-checked gap witness). The .par parser of parameters() reads back every line `thorn::variable = value` (any white space, thorn without ':', variable without '=', decimal integers, quoted strings without a double quote inside, bare words) and every file made of such lines, comments and blank lines, when the word ActiveThorns does not occur in an entry line and no '#' occurs inside a value (kernel-checked witnesses that both hypotheses are necessary).",
+    "note": "Trusted: Lean kernel + propext/Classical.choice/Quot.sound; the hand-written models (validated on every run against the real code: returned dicts and bytes of iterations.txt/content.txt after every call on generated trees with benign and adversarial names, 1-5 restarts, 1-12 levels, four file layouts, checkpoints, regrids inside a restart incl. one unnumbered chunk <-> several, per-variable iteration sets in one file; the parameter dictionary on generated .par files); Python str/int/float/repr/json/glob/h5py semantics (h5py lists keys alphabetically: taken from the real library as input). NOT covered by theorems (modelled and compared with the code only): the choice of ONE representative file per restart (no statement that the other files hold the same iterations; a process file that lacks a level at some iterations is not generated), float values and ActiveThorns lines of a .par file (a negative number with a negative exponent, e.g. -1.5e-3, and a '#' inside a quoted string do not come back as written: recorded in the evidence, reported to the lead). Not modelled: the SIMLOC lookup and the grid quantities of parameters().",
 }
